@@ -1,5 +1,151 @@
-//! C12: documents nested to depth 128 (stub, filled in below).
-use crate::engine::Engine;
-use crate::evidence::Recorder;
+//! C12: documents nested as deep as serde_json accepts when parsing text
+//! (128), into the recursive catalogue types and `serde_json::Value`, run in a
+//! child process so that a stack overflow (abort, not unwind) is attributed to
+//! its input instead of killing the checker.
 
-pub fn run_deep(_e: &Engine, _rec: &Recorder) {}
+use crate::doc::*;
+use crate::engine::Engine;
+use crate::entry::*;
+use crate::evidence::*;
+use crate::explore::*;
+use crate::rec::*;
+use serde_json::json;
+
+/// (case name, note of the catalogue root, JSON text)
+pub fn deep_cases() -> Vec<(String, &'static str, String)> {
+    let mut out = vec![];
+    let r1 = "recursive struct (Option<Box<Self>>)";
+    let r2 = "recursive tagged enum (Vec<Self>)";
+    let jv = "serde_json::Value as a target";
+    // serde_json's recursion limit is 128 nested arrays/objects
+    for (leaf_name, leaf) in [("valid", "null"), ("wrong-kind", "\"x\""), ("object", "{\"zz\":1}")] {
+        // R1: {"v":1,"next":{...}} — one level of nesting per object
+        let mut t = String::new();
+        let levels = if leaf.starts_with('{') { 126 } else { 127 };
+        for _ in 0..levels {
+            t.push_str("{\"v\":1,\"next\":");
+        }
+        t.push_str(&format!("{{\"v\":2,\"next\":{leaf}}}"));
+        for _ in 0..levels {
+            t.push('}');
+        }
+        out.push((format!("r1-{leaf_name}"), r1, t));
+        // R2: {"t":"Node","kids":[{...}]} — two levels per node
+        let mut t = String::new();
+        let levels = 63;
+        for _ in 0..levels {
+            t.push_str("{\"t\":\"Node\",\"kids\":[");
+        }
+        t.push_str(&match leaf {
+            "null" => "{\"t\":\"Leaf\"}".to_string(),
+            other => format!("{{\"t\":\"Node\",\"kids\":{other}}}"),
+        });
+        for _ in 0..levels {
+            t.push_str("]}");
+        }
+        out.push((format!("r2-{leaf_name}"), r2, t));
+        // Value: [[[[…]]]] and {"a":{"a":…}}
+        let mut t = "[".repeat(127);
+        t.push_str(leaf);
+        t.push_str(&"]".repeat(127));
+        out.push((format!("value-array-{leaf_name}"), jv, t));
+        let mut t = "{\"a\":".repeat(127);
+        t.push_str(leaf);
+        t.push_str(&"}".repeat(127));
+        out.push((format!("value-object-{leaf_name}"), jv, t));
+    }
+    // wide and deep: faults at every level of R1 (every level lacks "v")
+    let mut t = String::new();
+    for _ in 0..127 {
+        t.push_str("{\"next\":");
+    }
+    t.push_str("null");
+    for _ in 0..127 {
+        t.push('}');
+    }
+    out.push(("r1-missing-at-every-level".into(), r1, t));
+    out
+}
+
+/// Runs one deep case in this process (called in the child). Prints a summary.
+pub fn child(e: &Engine, name: &str) -> i32 {
+    let Some((_, note, text)) = deep_cases().into_iter().find(|c| c.0 == name) else {
+        eprintln!("unknown deep case {name}");
+        return 2;
+    };
+    let Some(ri) = e.cat.roots.iter().position(|r| r.note == note) else {
+        eprintln!("no catalogue root {note}");
+        return 2;
+    };
+    let v: serde_json::Value = match serde_json::from_str(&text) {
+        Ok(v) => v,
+        Err(err) => {
+            eprintln!("serde_json rejects the document ({err}) — not a payload");
+            return 3;
+        }
+    };
+    let doc = Doc::from_json(&v);
+    silence_panics();
+    let entry = &e.entries[ri];
+    let mut execs = 0usize;
+    let mut panics = 0usize;
+    for src in [Src::Json, Src::Ov] {
+        let run = |s: &Script| execute(entry, src, &doc, s);
+        let st = explore_scripts(&run, 256, 1, &mut |_, o| {
+            if o.panicked.is_some() {
+                panics += 1;
+            }
+        });
+        execs += st.executions;
+    }
+    // forget the deep value instead of dropping it recursively in case drop is the deep part
+    std::mem::forget(v);
+    println!("DEEP-OK case={name} depth={} executions={execs} panics={panics}", doc.depth());
+    if panics > 0 {
+        1
+    } else {
+        0
+    }
+}
+
+pub fn run_deep(e: &Engine, rec: &Recorder) {
+    let exe = std::env::current_exe().expect("current exe");
+    let mut ran = 0u64;
+    let mut total_exec = 0u64;
+    for (name, note, text) in deep_cases() {
+        let out = std::process::Command::new(&exe)
+            .arg("deep-child")
+            .arg(&name)
+            .env("VERIF_THREADS", "1")
+            .output()
+            .expect("spawn child");
+        let stdout = String::from_utf8_lossy(&out.stdout).to_string();
+        let code = out.status.code();
+        ran += 1;
+        if code == Some(3) || code == Some(2) {
+            // serde_json itself rejects it / machinery: not a payload, not a verdict
+            rec.cap_hit(format!("deep case {name} not run: {}", String::from_utf8_lossy(&out.stderr).trim()));
+            continue;
+        }
+        if let Some(l) = stdout.lines().find(|l| l.starts_with("DEEP-OK")) {
+            if let Some(x) = l.split("executions=").nth(1).and_then(|s| s.split(' ').next()).and_then(|s| s.parse::<u64>().ok()) {
+                total_exec += x;
+            }
+        }
+        if code != Some(0) {
+            rec.violation(Violation {
+                property: "C12".into(),
+                subject: format!("{note} at nesting depth 128"),
+                message: format!(
+                    "deserialize did not return normally on a document serde_json accepts (child exit {:?}, signal = abort/stack overflow if None): case {name}\n  {}",
+                    code,
+                    String::from_utf8_lossy(&out.stderr).lines().last().unwrap_or("")
+                ),
+                replay: json!({"kind": "deep", "case": name, "text_len": text.len()}),
+            });
+        }
+    }
+    let _ = e;
+    rec.add_counts(ran, ran, total_exec);
+    rec.set_extra("depth_128_cases_run_in_child_processes", json!(ran));
+}
